@@ -328,12 +328,23 @@ def lock_unlock(vm, shape):
     return 'ok-refused'
 
 
-def save_sequences(vm, k):
+PASSWORD_PAIRS = [          # (password, another password): unicode that is not stable under normalisation / case folding / stripping, long ones
+    ('\ufb01sh\u2460\u2122', 'fish1TM'), ('e\u0301', '\u00e9'), ('\u212b', '\u00c5'), ('Pass word ', 'Pass word'), ('pass', 'PASS'),
+    ('\uff50\uff41\uff53\uff53', 'pass'), ('x' * 300, 'x' * 299), ('\u00df', 'ss'), (' lead', 'lead'), ('tab\t', 'tab'), ('a\x00b', 'a'),
+]
+
+
+def save_sequences(vm, k, catalogue=False):
     """Every sequence of k wallet operations (encrypt / lock / unlock right or other password / add an account / save /
-    decrypt): whenever a file is written while encryption is enabled and a password is set, it holds no plaintext secret."""
+    decrypt): whenever a file is written while encryption is enabled and a password is set, it holds no plaintext secret; the password
+    the wallet was encrypted with unlocks it and another one does not."""
     VM[0] = vm
-    pw = vm.new_str('password', 2)
-    other = vm.new_str('other_password', 2)
+    if catalogue:
+        pw, other = PASSWORD_PAIRS[vm.pick('password_pair', len(PASSWORD_PAIRS))]
+    else:
+        pw = vm.new_str('password', 2)
+        other = vm.new_str('other_password', 2)
+    encrypted_with_pw = False
     if len(pw) == 0:
         return 'ok-blank-password'                         # Wallet.encrypt refuses a blank password
     accounts = [StubAccount('a0', 'seed words of account 0', 'xprv-token-0')]
@@ -348,14 +359,21 @@ def save_sequences(vm, k):
                 if wallet.is_locked:
                     continue
                 wallet.encrypt(pw)
+                encrypted_with_pw = True
             elif op == 1:
                 if wallet.encryption_password is None:
                     continue
                 wallet.lock()
             elif op == 2:
-                vm.await_(wallet.unlock(pw))
+                was_locked = wallet.is_locked
+                r = vm.await_(wallet.unlock(pw))
+                if was_locked and encrypted_with_pw and (r is not True or wallet.is_locked):
+                    return 'VIOLATION: the password the wallet was encrypted with does not unlock it'
             elif op == 3:
-                vm.await_(wallet.unlock(other))
+                was_locked = wallet.is_locked
+                r = vm.await_(wallet.unlock(other))
+                if was_locked and encrypted_with_pw and other != pw and (r is True or not wallet.is_locked):
+                    return 'VIOLATION: a password other than the one the wallet was encrypted with unlocks it'
             elif op == 4:
                 n = len(wallet.accounts)
                 wallet.accounts.append(StubAccount('a%d' % n, 'seed words of account %d' % n, 'xprv-token-%d' % n))
@@ -366,6 +384,7 @@ def save_sequences(vm, k):
                 if wallet.is_locked:
                     continue
                 wallet.decrypt()
+                encrypted_with_pw = False
         except Exception as e:
             return 'VIOLATION: wallet operation %d raised %s' % (op, type(e).__name__)
         for d in storage.written[checked:]:
@@ -591,6 +610,10 @@ def jobs(tier):
                         cost=7 ** k, bounds=dict(operations=k, operation_kinds='encrypt / lock / unlock(password) / unlock(other) / '
                                                  'add account / save / decrypt', passwords='two symbolic strings'),
                         must_reach=('ok',)))
+    out.append(dict(name='save-sequences-3-password-catalogue', family='secrets', fn='save_sequences', args=(3, True), loop_bound=200, max_depth=60,
+                    cost=7 ** 3 * len(PASSWORD_PAIRS), bounds=dict(operations=3, operation_kinds='as above', passwords='%d concrete pairs: unicode that '
+                                                                   'changes under NFKC/NFC, case, surrounding blanks, NUL, 300 characters' % len(PASSWORD_PAIRS)),
+                    must_reach=('ok',)))
     return out
 
 
